@@ -184,7 +184,23 @@ def has_group_probes():
     return out
 
 
+def shared_constant(plugin, fn_name, const):
+    """the value another translator plugin emits for `const` (the shared probes padding_edges_dropped_at_read of
+    tables_flowread.py and has_group_edges_by_name of tables_c04.py select the behaviour of Comp/Compile.v)"""
+    import importlib
+    tmp = []
+    getattr(importlib.import_module(plugin), fn_name)(tmp, [])
+    for line in tmp:
+        if line.startswith(f"Definition {const} : bool := "):
+            return line.rstrip(".").endswith("true")
+    raise Refuse(f"{plugin} does not emit {const}")
+
+
 def tables_rows_read(out, notes):
+    """Comp/Compile.v reads rows with the SHARED constants padding_edges_dropped_at_read (tables_flowread.py, probed on
+    a no_op row) and has_group_edges_by_name (tables_c04.py, probed on a wait_for_response row).  The compiler model
+    applies them to every row type / to every row that is not a group split: that is checked here, row type by
+    row type, fail-closed.  One constant is emitted: has_group_by_name_from_noop (NoOpNodeGroup.add_exit)."""
     try:
         pad = padding_probes()
     except Refuse:
@@ -193,12 +209,11 @@ def tables_rows_read(out, notes):
         raise Refuse(f"cannot probe how FlowParser reads padding edges: {type(e).__name__}: {e}")
     if pad.pop("send_message"):
         raise Refuse("a blank padding edge of an ordinary row is read as an edge")
-    vals = set(pad.values())
-    if len(vals) != 1:
-        raise Refuse(f"blank padding edges are applied by some row types and dropped by others: {pad!r}")
-    out.append(f"Definition drops_padding_edges_everywhere : bool := {coq_bool(not vals.pop())}.")
-    notes.append("drops_padding_edges_everywhere: TABULATED by parsing rectangular probe sheets (go_to, no_op, hard_exit, loose_exit, "
-                 "begin_block, merged row with a blank second edge) with FlowParser.parse and inspecting the exits")
+    dropped = shared_constant("tables_flowread", "tables_flowread", "padding_edges_dropped_at_read")
+    wrong = {k: v for k, v in pad.items() if v == dropped}
+    if wrong:
+        raise Refuse(f"padding_edges_dropped_at_read = {dropped}, but blank padding edges are "
+                     f"{'applied' if dropped else 'dropped'} by rows of type {sorted(wrong)}: Comp/Compile.v has no mirror for that")
     try:
         hg = has_group_probes()
     except Refuse:
@@ -209,13 +224,17 @@ def tables_rows_read(out, notes):
     if hg.pop("split_by_group") != by_name:
         raise Refuse("a split_by_group row no longer compiles its cases as [None, group name]")
     noop = hg.pop("no_op")
-    rows = list(hg.values())
-    if any(a not in (by_name, by_arg0) for a in rows + [noop]) or any(a != rows[0] for a in rows):
-        raise Refuse(f"unexpected arguments of a has_group case: rows {hg!r}, no_op {noop!r}")
-    out.append(f"Definition has_group_by_name_in_rows : bool := {coq_bool(rows[0] == by_name)}.")
+    if noop not in (by_name, by_arg0):
+        raise Refuse(f"unexpected arguments of a has_group case compiled from an edge leaving a no_op decision: {noop!r}")
+    named = shared_constant("tables_c04", "tables_c04", "has_group_edges_by_name")
+    wrong = {k: v for k, v in hg.items() if v != (by_name if named else by_arg0)}
+    if wrong:
+        raise Refuse(f"has_group_edges_by_name = {named}, but a has_group condition is compiled to {wrong!r}: "
+                     "Comp/Compile.v has no mirror for that")
     out.append(f"Definition has_group_by_name_from_noop : bool := {coq_bool(noop == by_name)}.")
-    notes.append("has_group_by_name_in_rows / has_group_by_name_from_noop: TABULATED by parsing probe sheets with a has_group condition on an "
-                 "edge leaving a wait_for_response / split_by_value / action row / no_op decision and reading the case's arguments")
+    notes.append("has_group_by_name_from_noop: TABULATED by parsing a probe sheet with a has_group condition on an edge leaving a no_op "
+                 "decision and reading the case's arguments; padding_edges_dropped_at_read / has_group_edges_by_name CHECKED for go_to, no_op, "
+                 "hard_exit, loose_exit, begin_block, merged rows / wait_for_response, split_by_value, action rows")
 
 
 GENERATORS = [tables_c01, tables_rows_read]
